@@ -52,8 +52,9 @@ ASSUMPTIONS = [
     "GridAttrs.center is compared with the ITK position of index (n-1)/2 (the convention of the property statement and of "
     "deepali.core.Grid); on the pinned tree the property and the center= argument raise before any convention can be observed",
     "derived grids: the geometry handed to ITK is the one the derived Grid object reports (size, spacing, direction, center); how "
-    "deepali derives those attributes is property C03's subject; steps that would give a fractional internal size, resize an axis with "
-    "a single sample, or leave fewer samples than requested are not generated (skipped and counted)",
+    "deepali derives those attributes is property C03's subject; half of the derived grids have a fractional internal size (downsample() of an odd size, resample() to a non-dividing "
+    "spacing; size() is its ceiling), where the maps and origin() are compared but no image is written; steps that resize an axis with "
+    "a single sample or leave fewer samples than requested are not generated (skipped and counted)",
     "pixel types uint8, int16, int32, float32, float64 (SimpleITK has no bool/float16; deepali documents the uint16->int32 and "
     "uint32->int64 widening of tensor_from_image, which is not generated)",
 ]
@@ -695,7 +696,7 @@ def derived_cases(draw):
     g = draw(geometries(D, max_size=24))
     return {"D": D, "grid": g, "route": draw(st.sampled_from(ROUTES)), "derive": draw(gen.derivation_steps(D)),
             "rel": draw(st.lists(st.lists(gen.qfloat(-0.5, 1.5, 0.001), min_size=D, max_size=D), min_size=1, max_size=4)),
-            "dtype": draw(gen.dtypes())}
+            "dtype": draw(gen.dtypes()), "fractional": draw(st.booleans())}
 
 
 def run_derived(case):
@@ -706,7 +707,8 @@ def run_derived(case):
 
     g = case["grid"]
     m0 = ref.GridModel.from_desc(g)
-    grid, ops = derive_grid(build_grid(g, m0, case["route"]), case["derive"])
+    grid, ops = derive_grid(build_grid(g, m0, case["route"]), case["derive"], 1, bool(case.get("fractional")))
+    frac = not bool(torch.equal(grid._size, grid._size.round()))  # e.g. 2.5 stored for the 3 samples of downsample() of 5
     m = model_of_grid(grid)  # float64 geometry from the attributes the derived grid reports (center form)
     img = itk_image(m)
     dt = tdtype(case["dtype"])
@@ -724,7 +726,7 @@ def run_derived(case):
     scale = float(np.abs(m.o).max()) + extent_of(m)
     r = max(r, check_close(grid.origin(), np.array(img.GetOrigin()), K_HDR * EPS32 * max(scale, 1e-30), "derived_origin_vs_itk",
                            f"grid derived via {ops}: origin() vs ITK position of index 0"))
-    if int(np.prod(m.n)) <= 4096:
+    if int(np.prod(m.n)) <= 4096 and not frac:  # (images on grids with a fractional internal size: C04, K3 / K4)
         # the header deepali writes for an image on the derived grid, read by ITK
         out = Image(torch.zeros((1,) + tuple(int(v) for v in m.n[::-1])), grid).sitk()
         r = max(r, check_itk_header(out, m, f"Image(zeros, grid derived via {ops}).sitk()", "derived_image_sitk_"))
@@ -732,7 +734,7 @@ def run_derived(case):
         r = max(r, check_close(grid.index_to_world(idx_t), w2, bw, "derived_index_to_world_vs_written_header",
                                f"grid derived via {ops}: index_to_world vs ITK on the header written by Image.sitk()"))
     return {"ratio": r, "nontrivial": nontrivial_geometry(g) and len(ops) > 0,
-            "labels": labels_of(case) + [case["dtype"]] + [f"via={o}" for o in sorted(set(ops))]}
+            "labels": labels_of(case) + [case["dtype"], f"fractional_size={frac}"] + [f"via={o}" for o in sorted(set(ops))]}
 
 
 FACETS = [
